@@ -53,14 +53,11 @@ Proof.
 Qed.
 
 Lemma nodef_spec : forall c cl, In c cs -> In cl (cs_prog c) -> cs_co c = true ->
-  rs_kind (nth (c_res cl) rs rsdummy) <> KClosed
-  /\ (classify (rs_kind (nth (c_res cl) rs rsdummy)) (c_op cl) = CRead -> rs_timed (nth (c_res cl) rs rsdummy) = false).
+  classify (rs_kind (nth (c_res cl) rs rsdummy)) (c_op cl) = CRead -> rs_timed (nth (c_res cl) rs rsdummy) = false.
 Proof.
   intros c cl Hc Hcl Hco. unfold no_defect in Hnd0. rewrite forallb_forall in Hnd0. specialize (Hnd0 c Hc).
   rewrite Hco in Hnd0. cbn [negb orb] in Hnd0. rewrite forallb_forall in Hnd0. specialize (Hnd0 cl Hcl).
-  cbn beta zeta in Hnd0. apply andb_true_iff in Hnd0 as [A B]. split.
-  - intro E. rewrite E in A. discriminate.
-  - intro E. rewrite E in B. apply negb_true_iff in B. auto.
+  cbn beta zeta in Hnd0. intro E. rewrite E in Hnd0. apply negb_true_iff in Hnd0. auto.
 Qed.
 
 Lemma total_spec : forall r, feedable (rs_kind (nth r rs rsdummy)) (rs_eof (nth r rs rsdummy)) = false -> total r = 0.
@@ -83,7 +80,7 @@ Proof.
   exfalso. unfold co_only in Hco. rewrite forallb_forall in Hco. specialize (Hco c Hc).
   assert (Hu : uses c r = true) by (rewrite <- E; apply uses_in; auto).
   rewrite Hu in Hco. cbn [negb orb] in Hco.
-  destruct (nodef_spec c cl Hc Hcl Hco) as [_ Hn]. rewrite E in Hn. specialize (Hn Ecl).
+  pose proof (nodef_spec c cl Hc Hcl Hco) as Hn. rewrite E in Hn. specialize (Hn Ecl).
   rewrite (nth_error_nth _ _ _ rsdummy Hsp) in Hn. congruence.
 Qed.
 
